@@ -480,6 +480,9 @@ def run(ctx):
     ctx.floor("codec-obligations", n, 7 * len(pairs))
     ctx.extra["codec_pairs"] = len(pairs)
     lower_depth_literal(ctx, crate)
+    # the packing finalisers: one pack, on the entries as pushed, before any re-encoding (depth bound of the result)
+    from rules.c06 import packed as _packed
+    _packed(ctx, crate)
     who_may_construct(ctx, crate)
     for fn in RECURS: recursion_shape(ctx, crate, fn)
     views(ctx, crate)
